@@ -314,6 +314,7 @@ theorem core_step (s : State) (m : Move) (h : Inv s) (c : Core s) (ha : assumed1
   | deleteApp kind ns app => exact c.of_eq rfl rfl rfl rfl rfl rfl
   | setPool name size => dsimp only [step]; split <;> exact c.of_eq rfl rfl rfl rfl rfl rfl
   | listerSync pods apps => dsimp only [step]; split <;> split <;> exact c.of_eq rfl rfl rfl rfl rfl rfl
+  | fipSync => exact c.of_eq rfl rfl rfl rfl rfl rfl
   | dropEvent i => dsimp only [step]; split <;> exact c.of_eq rfl rfl rfl rfl rfl rfl
   | filter ns name nodes ch fault =>
     exact filter_core _ ns name nodes ch (c.of_eq (s' := withFaults s fault 0) rfl rfl rfl rfl rfl rfl)
@@ -498,6 +499,7 @@ theorem back_step (s : State) (m : Move) (h : Inv s) (c : Core s) (ha : assumed1
   | deleteApp kind ns app => exact Back.of_pods_eq rfl
   | setPool name size => dsimp only [step]; split <;> exact Back.of_pods_eq rfl
   | listerSync pods apps => dsimp only [step]; split <;> split <;> exact Back.of_pods_eq rfl
+  | fipSync => exact Back.of_pods_eq rfl
   | dropEvent i => dsimp only [step]; split <;> exact Back.of_pods_eq rfl
   | filter ns name nodes ch fault => exact Back.of_pods_eq (filter_pods (withFaults s fault 0) ns name nodes ch)
   | bind ns name uid node ch fault pfault =>
